@@ -1,7 +1,7 @@
 (* C03 -- statements only; see DESIGN.md section 6 C03.  Theorems are added as the proofs land;
    the witnesses below are evaluated in the kernel on the whole-parser model. *)
 From Coq Require Import String.
-From MdIt Require Import Prims Tables Tree Render Core Dump Dispatch.
+From MdIt Require Import Prims Tables Escape Tree Render Core Dump Dispatch TreeProofs RenderProofs.
 Local Open Scope string_scope.
 Local Open Scope list_scope.
 Local Open Scope N_scope.
@@ -17,3 +17,24 @@ Example C03_witness_escaped :
   html_of "Cs" "[a](/u ""x\""y"") <script>" = bs "<p><a href=""/u"" title=""x&quot;y"">a</a> &lt;script&gt;</p>
 ".
 Proof. vm_compute. reflexivity. Qed.
+
+
+(* escaping: no raw '<', '>' or double quote survives, and a reader that decodes the four
+   entities gets the original characters back -- for every byte string *)
+Theorem C03_escape_no_special : forall s, forallb (fun b => negb (special b)) (escape_html s) = true.
+Proof. exact escape_no_special. Qed.
+
+Theorem C03_escape_lossless : forall s fuel, (length (escape_html s) <= fuel)%nat ->
+  unescape_html fuel (escape_html s) = s.
+Proof. exact unescape_escape. Qed.
+
+(* text reaches the output only through escape_html; attribute names and values are escaped and
+   double-quoted (chunk structure of the serializer) *)
+Theorem C03_text_is_escaped : forall xhtml ls s, chunk xhtml ls (EText s) = escape_html s.
+Proof. reflexivity. Qed.
+Theorem C03_attrs_are_escaped : forall attrs,
+  attrs_chunk attrs = flat_map (fun a : str * str => [32] ++ escape_html (fst a) ++ [61; 34] ++ escape_html (snd a) ++ [34]) attrs.
+Proof. reflexivity. Qed.
+
+Print Assumptions C03_escape_no_special.
+Print Assumptions C03_escape_lossless.
